@@ -7,6 +7,7 @@ Driver for C15 (allocation failure).
   `run ...`   monitor for one fault-injected workload run (`runGood`)
 -/
 import AsmjitVerif.Spec.Fault
+import AsmjitVerif.Model.FaultPool
 import Driver.Common
 namespace Driver.C15
 open AsmjitVerif AsmjitVerif.Fault Driver
@@ -68,6 +69,10 @@ def oracleOfMask (m : Nat) : Oracle := (List.range 64).map fun i => (m >>> i) % 
 
 structure DS where
   st : St := St.init
+  pool : FaultPool.FPool := {}
+  /-- monitor of `padd`: the last pool dump of the implementation and the constants added so far with their offsets -/
+  lastPool : String := "P=0:0:0:- G="
+  consts : List (List Nat × Nat) := []
   /-- monitor: the spec's view, equal to the implementation's last dump -/
   sv : View := {}
 
@@ -79,9 +84,27 @@ def mkLabels (s : St) : St :=
   let (_, s2, _) := newLabel [] s1
   s2
 
+def renderPool (s : FaultPool.FPool) : String :=
+  let img := ConstPool.fill s.p
+  "P=" ++ s!"{s.p.size}:{s.p.alignment}:{s.gapPool}:{hexOfBytes (img.map (·.toNat))}" ++ " G=" ++
+  joinC ((List.range 7).flatMap fun i => (ConstPool.getAt s.p.gaps i).map fun g => s!"{i}:{g.offset}:{g.size}")
+
+def poolStep (d : DS) (mask : String) (hex : String) : DS × String :=
+  match parseHex? mask, hexToBytes? hex with
+  | some m, some bytes =>
+    let o := oracleOfMask m
+    let (o', s', r) := FaultPool.addF o d.pool bytes
+    let (e, off) := match r with
+      | .ok off => ("ok", toString off)
+      | .invalidArgument => ("InvalidArgument", "-")
+      | .oom => ("OutOfMemory", "-")
+    ({ d with pool := s' }, s!"{e} n={o.length - o'.length} off={off} | {renderPool s'}")
+  | _, _ => (d, "bad-op")
+
 def modelStep (d : DS) (w : List String) : DS × String :=
   match w with
-  | ["reset"] => ({ d with st := St.init }, answer .ok 0 St.init)
+  | ["reset"] => ({ d with st := St.init, pool := {} }, answer .ok 0 St.init)
+  | [mask, "padd", hex] => poolStep d mask hex
   | _ :: "mklabels" :: _ => let s := mkLabels d.st; ({ d with st := s }, answer .ok 0 s)
   | mask :: rest =>
     match parseHex? mask, parseOp rest with
@@ -102,12 +125,39 @@ def splitAnswer (a : String) : Option (String × String) :=
 def withAddrTab (v : View) : View :=
   { specNewSection v [46, 97, 100, 100, 114, 116, 97, 98] 8 2147483647 with addrTab := some v.sections.length }
 
+/-- monitor of one `padd`: out of memory => the pool dump (size, alignment, gap free list, image, gaps) is unchanged;
+ok => the offset is aligned, inside the pool, the image carries the constant there, and every earlier constant is still found
+at the offset it was given -/
+def monPool (d : DS) (hex : String) (impl : String) : DS × String :=
+  match impl.splitOn " | ", bytesOfHex hex with
+  | [h, pd], some data =>
+    let hw := words h
+    let err := hw.headD ""
+    let off := ((hw.getD 2 "").drop 4).toString.toNat?
+    let img := (bytesOfHex ((((pd.splitOn " ").headD "").splitOn ":").getD 3 "-")).getD []
+    let found (c : List Nat × Nat) : Bool := (img.drop c.2).take c.1.length == c.1
+    if err == "OutOfMemory" then
+      if pd == d.lastPool then (d, "good") else (d, "BAD out-of-memory answer but the pool changed")
+    else if err == "ok" then
+      match off with
+      | none => (d, "BAD no offset")
+      | some o =>
+        let cs := (data, o) :: d.consts
+        if data.length == 0 || o % data.length != 0 then ({ d with lastPool := pd, consts := cs }, "BAD misaligned offset")
+        else if !cs.all found then ({ d with lastPool := pd, consts := cs }, "BAD a constant is not found at its offset in the image")
+        else ({ d with lastPool := pd, consts := cs }, "good")
+    else if pd == d.lastPool then (d, "good") else (d, "BAD refused add changed the pool")
+  | _, _ => (d, "BAD unparsable answer")
+
 def monStep (d : DS) (opw : List String) (impl : String) : DS × String :=
+  match opw with
+  | [_, "padd", hex] => monPool d hex impl
+  | _ =>
   match splitAnswer impl with
   | none => (d, "BAD unparsable answer")
   | some (err, view) =>
     match opw with
-    | ["reset"] => if view == renderView {} then ({ d with sv := {} }, "good") else (d, "BAD reset state")
+    | ["reset"] => if view == renderView {} then ({ d with sv := {}, lastPool := "P=0:0:0:- G=", consts := [] }, "good") else (d, "BAD reset state")
     | _ :: "mklabels" :: _ =>
       let v := (specStep .newLabel (specStep .newLabel d.sv).1).1
       if view == renderView v then ({ d with sv := v }, "good") else (d, "BAD mklabels")
